@@ -504,7 +504,7 @@ class Signomial(object):
         Return the Hessian of this Signomial (as an ndarray) at the point ``x``.
         """
         weights = self.c * np.exp(self.alpha @ x)
-        H = self.alpha.T @ (self.alpha * weights)
+        H = self.alpha.T @ (self.alpha * weights[:, np.newaxis])
         return H
 
     def as_polynomial(self):
